@@ -192,7 +192,7 @@ CHECKS = {
         text="Machine-checked proofs on the model of the QueryResponses derives: the response map of a contract's query type has exactly one entry per query variant of the "
              "contract and of every implemented interface, keyed by wire name with the declared response type (explicit resp= wins), and the wrapper's map is the union of the "
              "parts' maps; keys are distinct whenever the routing lists are disjoint (C05). Tie: response_schemas() of compiled generated contracts (own type, each interface "
-             "type, wrapper) and the wrapper schema's any-of list vs the model and vs a python statement.",
+             "type, wrapper) and the wrapper schema's any-of list vs the model and vs a python statement. extract_return_type (the success type read off the signature) is regenerated from sylvia-derive/src/utils.rs as a Lean definition on every run and specified for every return type written with or without a path (RetTypeFn.extract_spec).",
         design="§8 C16",
         technique="Lean 4 proof (list/map characterisation) + L2 differential on response_schemas of real generated types",
         note=TB + " cosmwasm_schema's derive and schemars' schema generation are trusted; response types are compared by schema title."),
